@@ -324,3 +324,32 @@ Theorem C13_only_opening_makes_block_comment : forall uw ud x t x', raw_peek 2 (
   try_parsers uw ud parsers x = PTok t x' -> not_mult (t_type t) = true.
 Proof. exact try_parsers_not_mult. Qed.
 Print Assumptions C13_only_opening_makes_block_comment.
+
+(* ---- multi-line block comments; Hm5 (the header as ONE block comment) at file level *)
+From NV Require Import Proofs.MultiLineComment Proofs.HeaderRejectHm5.
+(* ---- append block for Props/C13.v (imports to add: Proofs.MultiLineComment Proofs.HeaderRejectHm5) *)
+Theorem C13_step_comment_multiline : forall uw ud body tail o l c e, bodym_ok body = true ->
+  step uw ud (mkst (47%N :: 42%N :: body ++ 42%N :: 47%N :: tail) o l c e) =
+    StepItem (ITok (mktok MULT_COMMENT l c (Some (comment_text body))) o (o + List.length body + 4)%nat)
+             (mkst tail (o + List.length body + 4)%nat (fst (posm l (c + 2) body)) (snd (posm l (c + 2) body) + 2) e).
+Proof. exact step_comment_ml. Qed.
+Print Assumptions C13_step_comment_multiline.
+
+Theorem C13_block_comment_then_text : forall uw ud body src items xf, bodym_ok body = true ->
+  lex uw ud src = Ok (items, xf) ->
+  lex uw ud (comment_text body ++ 10%N :: src) =
+    Ok (ITok (mktok MULT_COMMENT 1 1 (Some (comment_text body))) 0 (List.length body + 4)%nat
+        :: ITok (mktok NEWLINE (1 + count_nl body) (snd (posm 1 3 body) + 2) None) (List.length body + 4)%nat (List.length body + 4 + 1)%nat
+        :: map (sh_item (count_nl body + 1) (List.length body + 4 + 1)%nat) items,
+        shl (count_nl body + 1) (List.length body + 4 + 1)%nat xf).
+Proof. exact lex_block_comment_then_text. Qed.
+Print Assumptions C13_block_comment_then_text.
+
+Theorem C13_file_reject_Hm5 : forall uw ud f src items xf items' xf' oracle name jmp m,
+  fields_lex_ok f = true -> fields_plain f = true ->
+  lex uw ud src = Ok (items, xf) -> first_tok_not_block (tokens_of items) = true ->
+  lex uw ud (hm5_text f ++ 10%N :: src) = Ok (items', xf') ->
+  induced oracle (tokens_of items') -> oracle 1%nat = Matched name jmp ->
+  diag_count (events_upto oracle (tokens_of items') (2 + m)) = 1%nat.
+Proof. exact file_reject_Hm5. Qed.
+Print Assumptions C13_file_reject_Hm5.
